@@ -188,11 +188,20 @@ def family(tier):
         base += [s for s in F.undirected([1, 2, 3, 4, 5], 3, isolated=False, multi=False, min_edges=2) if 5 in s["nodes"]]
     else:
         base += [s for s in F.undirected([1, 2, 3, 4, 5], 2, isolated=False, multi=False, min_edges=2) if 5 in s["nodes"]]
-    items = []
+    items = list(F.wide())  # more than ten nodes and edges
     for k, s in enumerate(base):
         items.append(s)
         if k % 4 == 0:
             items.append(F.relabel(s, node_map={n: "v%d" % (9 - n) for n in s["nodes"]}, reverse_members=True))
+        # edge IDs need only be hashable: IDs that are not mutually orderable (frozensets are partially ordered by
+        # inclusion, ints and strings not at all), decreasing and float IDs
+        m = len(s["edges"])
+        if k % 4 == 1:
+            items.append(F.relabel(s, edge_ids=[frozenset({"id", i}) for i in range(m)]))
+        elif k % 4 == 2:
+            items.append(F.relabel(s, edge_ids=["a", 7, (1, 2), 2.5, "b", 11][:m] if m <= 6 else list(range(m))))
+        elif k % 4 == 3:
+            items.append(F.relabel(s, edge_ids=[10.5 - i for i in range(m)]))
     return items
 
 
